@@ -91,7 +91,8 @@ def run(ctx):
         # real/imag combination: add_or_sub(tmp.real, tmp.imag) in this order
         for r in [r for r in walk_no_nested(fi.node) if isinstance(r, ast.Return)]:
             v = r.value
-            if isinstance(v, ast.Call) and isinstance(v.func, ast.Name) and v.func.id == "add_or_sub":
+            seln = st.targets[0].id if isinstance(st.targets[0], ast.Name) else None
+            if isinstance(v, ast.Call) and isinstance(v.func, ast.Name) and v.func.id == seln:
                 a = [src(x) for x in v.args]
                 ctx.check("R09.1", f"{fi.key}::combines real (+/-) imag of the complex transform in this order",
                           len(a) == 2 and a[0].endswith(".real") and a[1].endswith(".imag") and a[0][:-5] == a[1][:-5], str(a), fi, r)
@@ -114,7 +115,6 @@ def run(ctx):
         xn, mn = fi.params()[1:3]
         for mode in (1, 2, 4, 8):
             sp = Spec(m, cls, fi, {mn: mode})
-            sp.keep = {"tdom"}
             sp.run()
             want = "self._domain" if mode in (1, 2) else "self._target"
             # collect the volume factor source: any `...[self._space].scalar_dvol` that survives specialisation in returns
@@ -125,23 +125,34 @@ def run(ctx):
                         vols.add(src(x.value))
             ctx.check("R09.2", f"{fi.key}::mode {mode}: volume factor of the {'domain' if mode in (1, 2) else 'target'} space",
                       vols == {f"{want}[self._space]"}, f"uses {sorted(vols)}", fi)
-            td = sp.defs.get("tdom", [])
-            ctx.check("R09.2", f"{fi.key}::mode {mode}: result is built on _tgt(mode)",
-                      len({src(t) for t in td}) == 1 and src(td[0]) in (f"self._tgt({mode})",) and
-                      all(any(isinstance(c, ast.Call) and call_name(c) == "Field" and src(c.args[0]) == "tdom" for c in ast.walk(e)) for e, a, st in sp.returns),
-                      f"tdom = {[src(t) for t in td]}", fi)
+            doms = set()
+            for e, a, st in sp.returns:
+                for c in ast.walk(e):
+                    if isinstance(c, ast.Call) and call_name(c) == "Field" and c.args:
+                        doms.add(src(c.args[0]))
+            ctx.check("R09.2", f"{fi.key}::mode {mode}: result is built on _tgt(mode)", doms == {f"self._tgt({mode})"},
+                      f"result domains {sorted(doms)}", fi)
     # FFT direction by the harmonic flag of the INPUT's space
     ap = F.methods["apply"]
-    xn = ap.params()[1]
-    tests = [n for n in walk_no_nested(ap.node) if isinstance(n, ast.If) and "harmonic" in src(n.test)]
-    okd = False
-    if len(tests) == 1:
-        t = tests[0]
-        b_then = {src(s_.targets[0]): src(s_.value) for s_ in t.body if isinstance(s_, ast.Assign)}
-        b_else = {src(s_.targets[0]): src(s_.value) for s_ in t.orelse if isinstance(s_, ast.Assign)}
-        okd = src(t.test) == f"{xn}.domain[self._space].harmonic" and b_then.get("func") == "ifftn" and b_else.get("func") == "fftn" \
-            and b_then.get("fct") == "ncells" and b_else.get("fct") in ("1.0", "1")
-    ctx.check("R09.2", f"{ap.key}::harmonic input -> ifftn scaled by the cell count, position input -> fftn", okd, None, ap)
+    xn, mn = ap.params()[1:3]
+    okd = True
+    det = []
+    for harm in (True, False):
+        sp = Spec(m, F, ap, {mn: 1}, facts={f"{xn}.domain[self._space].harmonic": harm}).run()
+        txts = [src(e) for e, a, st in sp.returns]
+        det.append((harm, [t[:90] for t in txts]))
+        for t in txts:
+            uses_i = "ifftn(" in t
+            uses_f = "fftn(" in t.replace("ifftn(", "")
+            cells = f"{xn}.domain[self._space].size" in t
+            if harm and not (uses_i and not uses_f and (cells or "Tval" not in t)):
+                okd = False
+            if not harm and not (uses_f and not uses_i and not cells):
+                okd = False
+        # the harmonic branch must scale by the cell count somewhere
+        if harm and not any(f"{xn}.domain[self._space].size" in t for t in txts):
+            okd = False
+    ctx.check("R09.2", f"{ap.key}::harmonic input -> ifftn scaled by the cell count, position input -> fftn", okd, str(det), ap)
     hap = H.methods["apply"]
     ctx.saw_func(hap)
     xn, mn = hap.params()[1:3]
